@@ -64,9 +64,18 @@ func (ds *DataSchema) record(r *rand.Rand, o DataOpts, depth int) *refavro.Schem
 	if depth > 0 && r.IntN(10) == 0 {
 		n = 0
 	}
+	partner := ""
 	for i := 0; i < n; i++ {
 		name := fmt.Sprintf("f%d", i)
-		if n > 1 && r.IntN(8) == 0 {
+		if partner != "" {
+			// the other half of a hash-colliding pair follows its partner
+			name, partner = partner, ""
+			for _, f := range s.Fields {
+				if f.Name == name {
+					name = fmt.Sprintf("f%d", i)
+				}
+			}
+		} else if n > 1 && r.IntN(8) == 0 {
 			// a sibling whose name differs from another one's only in case; in a generated target it is also the
 			// Go identifier (F<j>) of that other field, which may come earlier or later
 			if j := r.IntN(n); j != i {
@@ -78,12 +87,17 @@ func (ds *DataSchema) record(r *rand.Rand, o DataOpts, depth int) *refavro.Schem
 				}
 			}
 		} else if r.IntN(40) == 0 {
-			// a name that is also a struct-tag option keyword
-			name = pick(r, []string{"omitempty", "string", "omitzero"})
+			// a name that is also a struct-tag option keyword, or one of a pair with equal 32-bit FNV-1a hashes
+			name = pick(r, append([]string{"omitempty", "string", "omitzero"}, CollidingNames...))
 			for _, f := range s.Fields {
 				if f.Name == name {
 					name = fmt.Sprintf("f%d", i)
 				}
+			}
+		}
+		for k, cn := range CollidingNames {
+			if name == cn {
+				partner = CollidingNames[k^1]
 			}
 		}
 		s.Fields = append(s.Fields, refavro.Field{Name: name, Type: ds.gen(r, o, depth+1, false)})
